@@ -1,5 +1,6 @@
 import NdnProofs.Lemmas.Lvs.CompileNumber
 import NdnProofs.Lemmas.Lvs.Sanity
+import NdnProofs.Lemmas.Lvs.KeyText
 /-!
   The node pool `genNode` produces is laid out as a tree (`Placed`): identifiers are positions, every edge
   leads to a later node whose parent is the source, edges carry a non-empty value / a tag, and every
@@ -82,11 +83,12 @@ theorem Placed.cons {b : Nat} {hd : PreNode} {sub : List PreNode} (hid : hd.id =
 /-! ### well-formed chains and moves -/
 
 /-- what the grammar guarantees of a constraint option: a literal is a (non-empty) encoded component,
-    a user function has a name -/
+    a user function has a name, and the name contains none of `(` `,` `}` (`FnNameOK`; the grammar's
+    `FN_IDENT: "$" CNAME` gives `$` followed by letters, digits and `_`) -/
 def OptOK {π : Type} : Opt π → Prop
   | .lit v => v ≠ []
   | .pat _ => True
-  | .fn f _ => f ≠ ""
+  | .fn f _ => f ≠ "" ∧ FnNameOK f
 
 def ChainOK (c : Chain) : Prop :=
   (∀ v, Atom.lit v ∈ c.name → v ≠ []) ∧ ∀ t ∈ c.cons, ∀ o ∈ t.opts, OptOK o
@@ -95,7 +97,7 @@ theorem optionShape_encOpt {o : Opt Int} (h : OptOK o) : OptionShape (encOpt o) 
   cases o with
   | lit v => exact Or.inl ⟨⟨v, rfl, h⟩, rfl, rfl⟩
   | pat t => exact Or.inr (Or.inl ⟨Or.inl rfl, ⟨_, rfl⟩, rfl⟩)
-  | fn f args => exact Or.inr (Or.inr ⟨Or.inl rfl, rfl, _, f, rfl, rfl, h⟩)
+  | fn f args => exact Or.inr (Or.inr ⟨Or.inl rfl, rfl, _, f, rfl, rfl, h.1⟩)
 
 def MoveOK (mv : Move) : Prop :=
   (∀ v, mv.value = some v → v ≠ []) ∧ (∀ cl ∈ mv.cons, ∀ o ∈ cl, OptionShape o) ∧ ∀ c ∈ mv.ctx, ChainOK c
